@@ -107,6 +107,24 @@ func (i *interpreter) zvCall(fr *frame, fn *ssa.Function, args []value) value {
 	case "SetMapOrder":
 		i.mapOrder = int(asInt64(args[0]))
 		return nil
+	case "DeferGoroutines":
+		// from now on the body of a `go` statement does not run at the
+		// statement: it waits until RunPendingGoroutine picks it
+		if b, ok := args[0].(bool); ok && b {
+			i.goMode = goModeDefer
+		} else {
+			i.goMode = goModeInline
+		}
+		return nil
+	case "RunPendingGoroutine":
+		// run the oldest waiting goroutine body to its end (sequentialised)
+		if len(i.pendingGo) == 0 {
+			return false
+		}
+		g := i.pendingGo[0]
+		i.pendingGo = i.pendingGo[1:]
+		call(i, nil, 0, g.fn, g.args)
+		return true
 	case "RunGoroutine":
 		// run inline; Goexit-like aborts are engine-level
 		var panicked value = iface{}
